@@ -14,7 +14,9 @@ from .. import egreplay
 from .. import proto
 from .. import redoracle as ro
 from ..core import Check, Problem, register
-from ..learners import ExactLearner, hypotheses
+from sklearn.base import BaseEstimator
+
+from ..learners import ExactLearner, hypotheses, _col0
 
 logging.getLogger("fairlearn").setLevel(logging.ERROR)
 
@@ -24,7 +26,7 @@ TOL = 1e-7          # scipy.linprog (HiGHS) feasibility/optimality tolerance + f
 #   |best_gap_ - exact gap of the matching multiplier| / max(1,|g|) <= 1.2e-14 ; exact gap - best_gap_ <= 1.2e-14 ;
 #   min(weights_) >= 0 exactly ; |sum(weights_) - 1| <= 5.8e-15 ; |_pmf_predict - mixture| <= 1.1e-16 ; min multiplier >= 0.
 PRECISION = 1e-8    # fairlearn's _PRECISION: best_gap_ may understate the true gap by up to this much (theorem
-                    # C08.classGap_le_evalGap_gap, witnesses C08.precision_slack_needed and corpus/C08/r2-precision-slack-witness.py)
+                    # C08.classGap_le_evalGap_gap, witnesses C08.precision_slack_needed and corpus/C08/f23-precision-slack.json (known finding F23))
 ROUND = 1e-12       # float rounding of the gap / guarantee relations (< 100 x 1.2e-14; was 1e-7 together with the slack)
 W_TOL = 5e-13       # weights_ is a probability vector (< 100 x 5.8e-15; was 1e-7)
 PMF_TOL = 1e-14     # _pmf_predict is the weights_-mixture (100 x 1.1e-16; was 1e-9)
@@ -54,6 +56,47 @@ _LIFTED = {}
 _RP = {}
 
 
+def lab_key(lab):
+    """a labeling (ints, or exact rationals as strings for an explicit soft class) as a tuple of Fractions; Fraction(1) == 1,
+    so these compare equal to the int tuples of `hypotheses`"""
+    return tuple(F(v) for v in lab)
+
+
+class SoftTraceLearner(BaseEstimator):
+    """EXACT cost-sensitive learner over an EXPLICITLY given finite class (case format extension `hclass`, review R2 / F23):
+    every hypothesis is a vector of predictions in [0,1] (exact rationals as strings), one per distinct feature value; the
+    learner returns the first minimiser of sum_i w_i |y_i - h(x_i)| (same tie tolerance as ExactLearner) and logs it."""
+
+    def __init__(self, hclass=()):
+        self.hclass = hclass
+
+    def fit(self, X, y, sample_weight=None):
+        x = _col0(X)
+        y = np.asarray(y).astype(float).reshape(-1)
+        w = np.ones(len(y)) if sample_weight is None else np.asarray(sample_weight, dtype=float).reshape(-1)
+        vals = sorted(set(x.tolist()))
+        pos = {v: j for j, v in enumerate(vals)}
+        k = len(vals)
+        w1, w0 = [0.0] * k, [0.0] * k
+        for xi, yi, wi in zip(x.tolist(), y.tolist(), w.tolist()):
+            (w1 if yi == 1.0 else w0)[pos[xi]] += wi
+        tot = float(sum(w1) + sum(w0))
+        best, best_cost = None, None
+        for h in self.hclass:
+            hf = [float(F(v)) for v in h]
+            cost = sum(hf[j] * w0[j] + (1.0 - hf[j]) * w1[j] for j in range(k))
+            if best is None or cost < best_cost - 1e-12 * max(tot, 1.0):
+                best, best_cost = h, cost
+        self.values_, self.labeling_ = vals, [float(F(v)) for v in best]
+        self.classes_ = np.array([0, 1])
+        egreplay.EVENTS.append(("h", tuple(str(F(v)) for v in best)))
+        return self
+
+    def predict(self, X):
+        m = dict(zip(self.values_, self.labeling_))
+        return np.array([m.get(v, 0.0) for v in _col0(X).tolist()], dtype=float)
+
+
 def loop_replay(case, o):
     """exact replay of the main loop on the recorded answers (cached per implementation output object)"""
     ent = _RP.get(id(o))
@@ -61,7 +104,8 @@ def loop_replay(case, o):
         return ent[1]
     P, H, errs, gams = table_of(case)
     try:
-        rp = egreplay.run_replay(case, o, P, H, errs, gams)
+        o_r = o if not case.get("hclass") else dict(o, trace=[[e[0], list(lab_key(e[1]))] if e[0] == "h" else e for e in o["trace"]])
+        rp = egreplay.run_replay(case, o_r, P, H, errs, gams)
     except (ValueError, IndexError, KeyError, ZeroDivisionError) as e:      # a trace that is not of the recorded shape
         rp = None
         o["_replay_error"] = repr(e)[:200]
@@ -78,7 +122,7 @@ def loop_observables(case, o, P, H, errs):
     o2["lam_cols"] = [[c[j] for j in perm] for c in o["lam_cols_raw"]]
     o2["lam_lp_cols"] = {t: [c[j] for j in perm] for t, c in o["lam_lp_raw"].items()}
     o2["weights_by_idx"] = o["weights"]
-    o2["stored_errs"] = [float(errs[H.index(tuple(lab))]) for lab in o["predictors"]]
+    o2["stored_errs"] = [float(errs[H.index(lab_key(lab))]) for lab in o["predictors"]]
     return o2
 
 
@@ -148,7 +192,12 @@ def table_of(case):
     P = problem_of(case)
     vals = sorted(set(case["x"]))
     pos = {v: j for j, v in enumerate(vals)}
-    H = hypotheses(case["kind"], len(vals))
+    if case.get("hclass"):
+        H = [lab_key(h) for h in case["hclass"]]       # explicit (possibly soft) class: one prediction per distinct value
+        if any(len(h) != len(vals) for h in H):
+            raise ValueError("hclass: one prediction per distinct feature value expected")
+    else:
+        H = hypotheses(case["kind"], len(vals))
     hv = [[h[pos[v]] for v in case["x"]] for h in H]
     errs = [P.err(h) for h in hv]
     gams = [P.gamma(h) for h in hv]
@@ -199,6 +248,9 @@ class CHECK(Check):
                    "the two guarantees: _PRECISION (1e-8, the proven slack of the best_h cache) + 1e-12*max(1,g); weights_ a "
                    "probability vector: 5e-13; pmf = mixture: 1e-14; multipliers >= -1e-12.  Loop-level comparison tolerance: 1e-9*max(1,B) on multipliers and "
                    "gaps, 1e-9 on weights, 1e-12 on LP matrix entries, 1e-7*max(1,B) on LP residuals / primal-dual objective equality.  "
+                   "The clause best_gap_ >= true gap is judged LITERALLY (float slack 1e-12 only); an understatement <= _PRECISION that "
+                   "goes with a sub-_PRECISION best_h cache hit in the replayed trace is known finding F23 (corpus/C08/"
+                   "f23-precision-slack.json, explicit soft hypothesis class `hclass`); any other understatement is a violation.  "
                    "A branch decision of the float implementation whose two sides differ by < 1e-11 (relative) in exact arithmetic "
                    "(idxmin ties between stored classifiers at uniform multipliers, gap_EG = gap_LP = 0, ...) may legitimately go the "
                    "other way: such runs are tagged loop:near-tie and a loop-level divergence there is not reported")
@@ -289,7 +341,7 @@ class CHECK(Check):
         for mi in sorted({1, 2, case["max_iter"] // 2, case["max_iter"] - 1}):
             if 1 <= mi < case["max_iter"]:
                 yield dict(case, max_iter=mi)
-        n = len(case["x"])
+        n = len(case["x"]) if not case.get("hclass") else 0     # an explicit class is tied to the feature values: rows are kept
         for i in range(n):
             c = dict(case)
             for key in ("x", "y", "g"):
@@ -311,7 +363,8 @@ class CHECK(Check):
         from sklearn.dummy import DummyClassifier
         X, y, sf = containers(case)
         eg = red.ExponentiatedGradient(
-            egreplay.TraceLearner(case["kind"]), mk_moment(case), eps=float(F(case["eps"])), max_iter=case["max_iter"],
+            SoftTraceLearner(tuple(tuple(h) for h in case["hclass"])) if case.get("hclass") else egreplay.TraceLearner(case["kind"]),
+            mk_moment(case), eps=float(F(case["eps"])), max_iter=case["max_iter"],
             nu=None if case["nu"] is None else float(F(case["nu"])), eta0=float(F(case["eta0"])),
             run_linprog_step=case["linprog"])
         try:
@@ -332,7 +385,10 @@ class CHECK(Check):
         Xt = test_matrix(case, vals)
         out = {"returns_self": ret is eg}
         pidx = list(eg.predictors_.index)
-        out["predictors"] = [[int(v) for v in np.asarray(eg.predictors_[i].predict(Xt)).reshape(-1)] for i in pidx]
+        if case.get("hclass"):      # soft predictions: the exact rational value of every float
+            out["predictors"] = [[str(F(float(v))) for v in np.asarray(eg.predictors_[i].predict(Xt)).reshape(-1)] for i in pidx]
+        else:
+            out["predictors"] = [[int(v) for v in np.asarray(eg.predictors_[i].predict(Xt)).reshape(-1)] for i in pidx]
         out["dummy"] = [isinstance(eg.predictors_[i], DummyClassifier) for i in pidx]
         out["weights_index_ok"] = sorted(eg.weights_.index) == sorted(pidx)
         out["weights"] = [float(eg.weights_[i]) for i in pidx if i in eg.weights_.index]
@@ -367,7 +423,7 @@ class CHECK(Check):
         """weights_ as a vector over the whole class (exact Fractions of the floats)"""
         Q = [F(0)] * len(H)
         for lab, w in zip(o["predictors"], o["weights"]):
-            t = tuple(lab)
+            t = lab_key(lab)
             if t not in H:
                 return None
             Q[H.index(t)] += F(w)
@@ -489,11 +545,16 @@ class CHECK(Check):
                                      "C08.saddle_error hypothesis lambda >= 0"))
             cands.append((name,) + self._true_gap(P, errs, gams, Q, lam, B))
         true_gaps = [float(c[5]) for c in cands]
-        if g < min(true_gaps) - tol:
+        # the LITERAL clause "best_gap_ >= true duality gap": float slack only.  An understatement of at most _PRECISION that
+        # goes with a sub-_PRECISION best_h cache hit in the recorded trace is known finding F23 (matched in `known`);
+        # every other understatement is a violation.
+        tol_lit = ROUND * max(1.0, abs(g))
+        if g < min(true_gaps) - tol_lit:
             probs.append(Problem("property", f"best_gap_ = {g} is smaller than the true duality gap of weights_ against the "
-                                             f"recorded multiplier(s): {dict(zip([c[0] for c in cands], true_gaps))}",
+                                             f"recorded multiplier(s): {dict(zip([c[0] for c in cands], true_gaps))} "
+                                             f"(understated by {min(true_gaps) - g:.3e})",
                                  "C08.gap_ge_true_gap"))
-        elif all(abs(g - t) > tol for t in true_gaps):
+        elif all(abs(g - t) > tol_lit for t in true_gaps):
             probs.append(Problem("correspondence", f"best_gap_ = {g} coincides with none of the exact gaps "
                                                    f"{dict(zip([c[0] for c in cands], true_gaps))}", "C08.gap (model)"))
         # -- the two guarantees against the exact constrained optimum -----------------------------------------------
@@ -517,7 +578,7 @@ class CHECK(Check):
         if case["nu"] is not None and abs(o["nu"] - float(F(case["nu"]))) > 0:
             probs.append(Problem("correspondence", "a user-supplied nu was changed by fit", "C08.nu"))
         # -- pmf is the mixture ----------------------------------------------------------------------------------
-        mix = [sum(wi * lab[j] for wi, lab in zip(w, o["predictors"])) for j in range(len(o["pmf1"]))]
+        mix = [sum(wi * float(F(lab[j])) for wi, lab in zip(w, o["predictors"])) for j in range(len(o["pmf1"]))]
         if any(abs(a - b_) > PMF_TOL for a, b_ in zip(mix, o["pmf1"])) or any(abs(s - 1) > PMF_TOL for s in o["pmf_rows_sum"]):
             probs.append(Problem("property", f"_pmf_predict {o['pmf1']} is not the weights_-mixture of predictors_ {mix}",
                                  "C08.pmf"))
@@ -614,6 +675,28 @@ class CHECK(Check):
             for e in entries:
                 if e.get("predicate") == "zero_weight_multiplier":
                     return e
+        if problem.relation == "C08.gap_ge_true_gap" and problem.kind == "property":
+            # F23: best_gap_ understates the true gap by at most _PRECISION (+ float slack) AND the exact replay of the recorded
+            # trace contains a best_h call in which the oracle's answer was strictly better than every stored classifier by less
+            # than _PRECISION (so the cached classifier was returned).  Both conditions are recomputed here from the run.
+            ents = [e for e in entries if e.get("predicate") == "sub_precision_cache_hit"]
+            if not ents:
+                return None
+            o = self.safe_impl(case)
+            if not isinstance(o, dict) or "best_gap" not in o or "trace" not in o:
+                return None
+            P, H, errs, gams = table_of(case)
+            Q = self._q(H, o)
+            if Q is None or sorted(map(tuple, o["lam_index"])) != sorted(P.index):
+                return None
+            B = 1 / F(case["eps"])
+            g = o["best_gap"]
+            under = min(float(self._true_gap(P, errs, gams, Q, lam, B)[4]) for _, lam in self._lams(P, o)) - g
+            rp = loop_replay(case, o)
+            if rp is None or rp.stuck or not rp.sub_prec_hits:
+                return None
+            if 0 < under <= PRECISION + ROUND * max(1.0, abs(g)):
+                return ents[0]
         return None
 
     def signature(self, case, o):
